@@ -165,7 +165,7 @@ def build_native(harness, defines=(), libs=(), exclude=(), san=False):
     def prod(out):
         cc = CLANG if san else 'g++'
         fl = ['-fsanitize=address,undefined'] if san else []
-        run([cc] + fl + ['-x', 'c', rt, '-x', 'none'] + objs + ['-lm', '-o', out])
+        run([cc] + fl + ['-x', 'c', rt, '-x', 'none'] + objs + ['-lstdc++', '-lm', '-o', out])
     return cached(key, '.exe', prod)
 
 
